@@ -261,6 +261,9 @@ def fam_misc(tier):
         ('main', 'inh', 'both', seq('inh', S('='), rule('atom')), False),
         ('two', 'inh', 'both', seq('inh', rule('atom'), S(','), neg(rule('num')), rule('atom')), False),
         ('stk', 'inh', 'both', seq('inh', opt(push(rule('num'))), S('='), choice(seq('inh', 'pop', rule('num')), rule('ident'))), False),
+        # silent rules that can fail on a literal before any rule is attempted (the report then sits at the start of the input range)
+        ('sl', 'inh', 'expr', seq('inh', S('='), rule('num')), False),
+        ('sl2', 'inh', 'expr', choice(seq('inh', S('x'), S(',')), S('1')), False),
     ]
     env3 = Env('mi_mixed', skip=None, rules=rules3, shapes=[('rule', r[0]) for r in rules3])
     env3.alpha = [b'=', b'i', b'f', b'1', b',', b'x']
